@@ -349,7 +349,7 @@ func vfPHFlipBit(b []int, bit int) []int { // bit 0 = most significant bit of b[
 func vfPHRecord(t *testing.T, env *vfEnv) {
 	n := env.Int("traces", 300)
 	ndial := env.Int("dials", 12)
-	sps := []string{"l", "l", "l", "m", "d"}
+	sps := []string{"l", "l", "l", "l", "l", "l", "l", "l", "m", "m", "m", "d"} // trailing dots are rare: PH1 cuts a trace short
 	for tr := 1; tr <= n && !env.Hung; tr++ {
 		if !env.Only(tr) {
 			continue
